@@ -76,8 +76,11 @@ func main() {
 	}
 	var items []string
 	// the machine-checked witnesses of P_LedgerC04.v (and one more known trigger) replayed on the real application
-	if prop == "C04" {
+	{
 		for i, sc := range scripted() {
+			if !strings.Contains(sc.props, prop) {
+				continue
+			}
 			h := &History{Seed: seed*1_000_003 + 900_000 + int64(i), Spec: sc.spec, Avoid: false}
 			items = append(items, execHistory(c, h, lib.NewRand(h.Seed), sc.ops, rep))
 			rep.Count("scripted:" + sc.name)
@@ -105,33 +108,66 @@ func main() {
 }
 
 type script struct {
-	name string
-	spec Spec
-	ops  []Op
+	props string
+	name  string
+	spec  Spec
+	ops   []Op
+}
+
+// bulk: more pending transfers of one token than a batch holds (OutgoingTxBatchSize = 100), by three users with tied and
+// distinct fees, then the batch request, a cancel of a transfer that stayed behind, the batch's execution, another batch
+func bulkOps() []Op {
+	ops := []Op{
+		{K: "SendToFx", C: 1, T: 1, A: 100, X: 60000}, {K: "SendToFx", C: 1, T: 1, A: 101, X: 60000}, {K: "SendToFx", C: 1, T: 1, A: 102, X: 60000},
+	}
+	for i := 0; i < 104; i++ {
+		ops = append(ops, Op{K: "SendToExternal", C: 1, T: 1, A: 100 + i%3, X: int64(10 + i%7), Y: int64(1 + i%5)})
+	}
+	ops = append(ops, Op{K: "RequestBatch", C: 1, T: 1},
+		Op{K: "Cancel", C: 1, A: 100, ID: 1}, // fee 1, lowest id: stayed in the pool
+		Op{K: "Cancel", C: 1, A: 102, ID: 3}, // fee 3: was batched, must be refused
+		Op{K: "BatchExecuted", C: 1, T: 1, ID: 1},
+		Op{K: "RequestBatch", C: 1, T: 1},
+		Op{K: "BatchExecuted", C: 1, T: 1, ID: 2})
+	return ops
 }
 
 func scripted() []script {
 	sp := Spec{Chains: []string{"eth", "bsc", "tron"}, ModChains: []string{"eth", "bsc"}, ExtChains: []string{"eth"}}
 	return []script{
-		{"withdrawable-refuted (older-rule refund parks the bridge denom)", sp, []Op{
+		{"C04 C05", "bulk: 104 pending transfers against the batch size of 100", sp, bulkOps()},
+		{"C08", "conversions to blocked receivers (erc20 module, chain module) and to the pair contract", sp, []Op{
+			{K: "ConvertERC20", T: 2, A: 100, B: 100, X: 1000},
+			{K: "ConvertCoin", T: 2, A: 100, B: aERC20, X: 300},
+			{K: "ConvertCoin", T: 2, A: 100, B: 1, X: 200},
+			{K: "ConvertCoin", T: 2, A: 100, B: tokAcct + 2, X: 100},
+			{K: "SendToFx", C: 1, T: 1, A: 101, X: 5000},
+			{K: "ConvertCoin", T: 1, A: 101, B: aERC20, X: 700},
+			{K: "ConvertCoin", T: 1, A: 101, B: 102, X: 700},
+			{K: "ConvertERC20", T: 1, A: 102, B: aEVM, X: 100},
+			{K: "ConvertERC20", T: 1, A: 102, B: 103, X: 100},
+			{K: "ConvertCoin", T: 0, A: 100, B: aERC20, X: 50},
+			{K: "ConvertDenom", T: 2, A: 100, B: aERC20, Src: 0, Tgt: 1, X: 50},
+		}},
+		{"C04", "withdrawable-refuted (older-rule refund parks the bridge denom)", sp, []Op{
 			{K: "SendToFx", C: 1, T: 1, A: 100, X: 1000},
 			{K: "BridgeCallMsg", C: 1, A: 100, B: 100, Toks: [][2]int64{{1, 400}}},
 			{K: "BridgeCallResult", C: 1, ID: 1, Flag: false},
 			{K: "SendToExternal", C: 1, T: 1, A: 100, X: 900, Y: 1},
 		}},
-		{"refund-refused (externally-owned token, failed result)", sp, []Op{
+		{"C04", "refund-refused (externally-owned token, failed result)", sp, []Op{
 			{K: "ObserveJump", C: 1, X: 0},
 			{K: "ConvertERC20", T: 2, A: 100, B: 100, X: 1000},
 			{K: "BridgeCallMsg", C: 1, A: 100, B: 100, Toks: [][2]int64{{2, 300}}},
 			{K: "BridgeCallResult", C: 1, ID: 1, Flag: false},
 		}},
-		{"refund-refused (externally-owned token, time-out wedges the chain's claims)", sp, []Op{
+		{"C04", "refund-refused (externally-owned token, time-out wedges the chain's claims)", sp, []Op{
 			{K: "ObserveJump", C: 1, X: 0},
 			{K: "PreBridgeCall", C: 1, A: 100, B: 101, Toks: [][2]int64{{2, 250}}},
 			{K: "ObserveJump", C: 1, X: 2},
 			{K: "SendToFx", C: 1, T: 0, A: 101, X: 77},
 		}},
-		{"inbound bridge call fails: the deposit is handed to the refund address (regression of fixed C04-3)", sp, []Op{
+		{"C04", "inbound bridge call fails: the deposit is handed to the refund address (regression of fixed C04-3)", sp, []Op{
 			{K: "BridgeCallIn", C: 1, A: cBad, B: 100, To: cBad, Toks: [][2]int64{{0, 500}}, Flag: false},
 		}},
 	}
